@@ -4,13 +4,16 @@
 # (--cfg pasfmt_verif), then runs the seeded search for one property.
 # exit 0: held on everything explored; exit 1: VIOLATION line printed; exit 2: harness error.
 prop="$1"; tier="${2:-${VERIF_TIER:-quick}}"
-cd /verif/sim || { echo "HARNESS-ERROR: /verif/sim missing"; exit 2; }
+here="$(cd "$(dirname "$0")" && pwd)"
+export VERIF_DIR="${VERIF_DIR:-$here}"
+export CARGO_TARGET_DIR="${CARGO_TARGET_DIR:-$here/target}"
 export CARGO_NET_OFFLINE=true
-mkdir -p /verif/target
-if ! cargo build --release --offline > /verif/target/build-$prop.log 2>&1; then
+cd "$here/sim" || { echo "HARNESS-ERROR: $here/sim missing"; exit 2; }
+mkdir -p "$CARGO_TARGET_DIR"
+if ! cargo build --release --offline > "$CARGO_TARGET_DIR/build-$prop.log" 2>&1; then
   echo "HARNESS-ERROR: the simulator does not build against the current /repo tree (not a verdict)"
-  grep -E "^(error|warning: unused)" -A12 /verif/target/build-$prop.log | head -60
+  grep -E "^(error|warning: unused)" -A12 "$CARGO_TARGET_DIR/build-$prop.log" | head -60
   exit 2
 fi
-cd /verif
-exec /verif/target/release/pasfmt-sim check "$prop" --tier "$tier"
+cd "$here"
+exec "$CARGO_TARGET_DIR/release/pasfmt-sim" check "$prop" --tier "$tier"
